@@ -259,6 +259,37 @@ fn cont_props(prop: &str, tier: &str, seed: u64, threads: usize, out: &str) {
                 gen_cont::scc_case(fls[i % 2], &format!("r{i}"), &g, &mut rng, 3)
             });
             extra.insert("random.graphs".into(), format!("{nr}"));
+            // one container across graph changes: every digraph on <=3 nodes x every (removed edge, added edge) pair
+            let nn = 3usize;
+            let mut jobs: Vec<(usize, usize, (usize, usize))> = vec![];
+            for idx in 0..(1usize << (nn * nn)) {
+                let g = gen_cont::bitset_graph(nn, idx);
+                for r in 0..g.edges.len() {
+                    for a in 0..nn * nn {
+                        if quick && (idx + r + a) % 3 != 0 {
+                            continue;
+                        }
+                        jobs.push((idx, r, (a / nn, a % nn)));
+                    }
+                }
+            }
+            for fl in &fls {
+                exec::new_section();
+                let jobs = &jobs;
+                spread(&mut ctxs, jobs.len(), |i| {
+                    let (idx, r, add) = jobs[i];
+                    gen_cont::scc_rewire_case(fl, &format!("w{idx}-{r}-{}{}", add.0, add.1), &gen_cont::bitset_graph(nn, idx), r, add)
+                });
+            }
+            extra.insert("rewire".into(), format!("{} (graph on 3 nodes, removed edge, added edge) triples x 2 flavours: scc, move the edge, scc on the same container", jobs.len()));
+            exec::new_section();
+            let nh = if quick { 200 } else { 4000 };
+            spread(&mut ctxs, nh, |i| {
+                let mut rng = Rng::new(seed.wrapping_mul(61).wrapping_add(i as u64));
+                let g = gen_search::random_graph(&mut rng, if i % 4 == 0 { 20 } else { 6 });
+                gen_cont::scc_history_case(fls[i % 2], &format!("h{i}"), &g, &mut rng, 6)
+            });
+            extra.insert("histories".into(), format!("{nh} x 6 scc calls interleaved with reversals, moves, connects, disconnects, isolates"));
         }
         "C12" => {
             let configs: Vec<(usize, usize)> = if quick { vec![(2, 3), (3, 2)] } else { vec![(2, 4), (3, 4)] };
@@ -312,6 +343,36 @@ fn cont_props(prop: &str, tier: &str, seed: u64, threads: usize, out: &str) {
                 let docs: Vec<String> = (0..20).map(|_| gen_cont::random_mutation(&mut rng, &base)).collect();
                 gen_cont::de_case(all[i % 4], &format!("x{i}"), &docs)
             });
+            // byte level: raw documents (JSON compared exactly with the byte-level model, CBOR for robustness)
+            let nraw = if quick { 3 } else { 40 };
+            let mut njson = 0usize;
+            let mut ncbor = 0usize;
+            for (fi, fl) in all.iter().enumerate() {
+                exec::new_section();
+                let per: Vec<(Vec<Vec<u8>>, Vec<Vec<u8>>)> = (0..nraw).map(|i| {
+                    let mut rng = Rng::new(seed.wrapping_mul(59).wrapping_add((i * 4 + fi) as u64));
+                    let mut g = gen_search::random_graph(&mut rng, if i == 0 { 2 } else { 4 });
+                    g.edges.truncate(if i == 0 { 2 } else { 4 });
+                    if i == 1 { g.vals[0] = -3; if let Some(e) = g.edges.first_mut() { e.2 = 4_000_000_000; } }
+                    let base = gen_cont::mutations(&g)[0].clone();
+                    let mut js = gen_cont::json_raw_mutations(&base);
+                    let mut cb = gen_cont::cbor_raw_mutations(&g);
+                    let cbase = cb[0].clone();
+                    for _ in 0..(if quick { 200 } else { 2000 }) {
+                        js.push(gen_cont::random_raw_mutation(&mut rng, base.as_bytes(), b"[]{},:0123456789-.\"eE+ \n\txtfn\x00\xff"));
+                        cb.push(gen_cont::random_raw_mutation(&mut rng, &cbase, &[0x00, 0x01, 0x17, 0x18, 0x19, 0x1a, 0x1b, 0x1f, 0x20, 0x38, 0x3b, 0x40, 0x5f, 0x60, 0x80, 0x82, 0x83, 0x9b, 0x9f, 0xa0, 0xbb, 0xc0, 0xc2, 0xf4, 0xf6, 0xf9, 0xfb, 0xff]));
+                    }
+                    (js, cb)
+                }).collect();
+                njson += per.iter().map(|p| p.0.len()).sum::<usize>();
+                ncbor += per.iter().map(|p| p.1.len()).sum::<usize>();
+                let per = &per;
+                spread(&mut ctxs, nraw * 2, |j| {
+                    let (i, which) = (j / 2, j % 2);
+                    if which == 0 { gen_cont::deraw_case(fl, &format!("rj{i}"), "json", &per[i].0) } else { gen_cont::deraw_case(fl, &format!("rc{i}"), "cbor", &per[i].1) }
+                });
+            }
+            extra.insert("raw_bytes".into(), format!("json documents (exact, byte-level model): {njson}; cbor documents (robustness): {ncbor}; single-edit classes: white space/number literal/punctuation/truncation/trailing for JSON, every item header x (boundary arguments, widths, major types, indefinite, reserved, tags) for CBOR, plus random byte edits"));
             extra.insert("mutations".into(), format!("structural: {nseeds} seeds x 4 flavours x 2 formats; random: {nr}"));
         }
         _ => {
@@ -692,6 +753,7 @@ fn main() {
     let out = arg(&args, "--out", "/verif/work/tmp");
     match cmd {
         "run" => {
+            let _ = exec::INFLIGHT_DIR.set(out.clone());
             let prop = arg(&args, "--prop", "");
             match prop.as_str() {
                 "C01" | "C02" | "C03" => edge_props(&prop, &tier, seed, threads, &out),
